@@ -1,5 +1,6 @@
 """ImpulseDict class for manipulating impulse responses."""
 
+import numbers
 import numpy as np
 
 from .result_dict import ResultDict
@@ -65,14 +66,14 @@ class ImpulseDict(ResultDict):
                 other_internals = other.internals[b]
                 internals[b] = {k: op(v, other_internals[k]) for k, v in self.internals[b].items()} 
             return ImpulseDict(toplevel, internals, self.T)
-        elif isinstance(other, (float, int)):
+        elif isinstance(other, numbers.Real):
             toplevel = {k: op(v, other) for k, v in self.toplevel.items()}
             internals = {}
             for b in self.internals:
                 internals[b] = {k: op(v, other) for k, v in self.internals[b].items()} 
             return ImpulseDict(toplevel, internals, self.T)
         else:
-            return NotImplementedError(f'Can only perform operations with ImpulseDicts and other ImpulseDicts, SteadyStateDicts, or numbers, not {type(other).__name__}')
+            return NotImplemented
 
     def unary_operation(self, op):
         toplevel = {k: op(v) for k, v in self.toplevel.items()}
